@@ -132,7 +132,7 @@ func callGoal(p *prolog.Interpreter, q string, iso map[string]bool, pred string)
 	select {
 	case o := <-done:
 		return o
-	case <-time.After(2 * time.Second):
+	case <-time.After(wd(2 * time.Second)):
 		return outcome{"hang", "no result within 2s (a context was not even passed: Query/Exec must return by themselves)"}
 	}
 }
@@ -196,7 +196,7 @@ func robustHandle(c map[string]J) map[string]J {
 					}()
 					select {
 					case o = <-done:
-					case <-time.After(2 * time.Second):
+					case <-time.After(wd(2 * time.Second)):
 						o = outcome{"hang", "Exec did not return within 2s"}
 					}
 				case "read_term":
